@@ -98,6 +98,8 @@ def _check_call(h, fam, c, theta0, S, d, tag=""):
         h.close(starts[i], ref0[i], tag + "optimiser-starts-at-current-parameters")
     back = fam.ref(d.parameters)
     for i in range(k + 2):
+        if c["fx"][i] is not None:
+            continue        # a fixed slot is judged by C11 (the object keeps the declared value, whatever scipy echoes)
         h.close(back[i], c["result"][i], tag + "result-round-trip", rtol=1e-9)
 
 
